@@ -319,6 +319,7 @@ CaseResult run_ef(const RunCtx &ctx, TapeReader &t, unsigned size_hint) {
     o.size_hint = size_hint;
     o.xkeys = ctx.x("xkeys");
     o.xthreads = ctx.x("xthreads");
+    o.pow2_span_edge = true;
     std::vector<K> keys = gen_keys<K>(t, o, meta);
 
     // KNOWN FINDING KF-3 (excluded by construction, counted): 64-bit keys with first key 0 and last key max-1 make the rebased closing
@@ -346,6 +347,7 @@ CaseResult run_ef(const RunCtx &ctx, TapeReader &t, unsigned size_hint) {
     }
     common_labels(res, meta);
     if (excluded) res.label("excluded_known_KF3_u64_first0_last_maxm1");
+    if (meta.pow2_edge) res.label("ef_universe_at_pow2_edge");
     size_t segs = idx->segments_count();
     if (segs >= 4) res.label("ge3_segments");
     // Elias-Fano geometry: low-bit width decides which branch of pred() runs
